@@ -93,7 +93,10 @@ class _FilesystemDataSource(DataSource):
         non_versioned_path = self._get_non_versioned_link_path(
             self._escape_key(key.key)
         )
-        with open(str(non_versioned_path), "r") as f:
+        # A link that was cut short in the middle of a multi-byte character (a crash or a failed
+        # write, with a non-ASCII path) is read like any other truncated link: as a path that
+        # does not exist, not as a decoding error
+        with open(str(non_versioned_path), "r", errors="replace") as f:
             versioned_path = Path(f.read())
         return versioned_path
 
